@@ -158,6 +158,26 @@ type clientStreamWrapper struct {
 	grpc.ClientStream
 }
 
+// The wrapper must stay reachable while one of its operations is in progress.
+// Otherwise, if that operation is the caller's last use of the stream (e.g. a
+// blocking RecvMsg), the garbage collector may run the finalizer and cancel
+// the call while it is still being waited for.
+
+func (w *clientStreamWrapper) Header() (metadata.MD, error) {
+	defer runtime.KeepAlive(w)
+	return w.ClientStream.Header()
+}
+
+func (w *clientStreamWrapper) SendMsg(m interface{}) error {
+	defer runtime.KeepAlive(w)
+	return w.ClientStream.SendMsg(m)
+}
+
+func (w *clientStreamWrapper) RecvMsg(m interface{}) error {
+	defer runtime.KeepAlive(w)
+	return w.ClientStream.RecvMsg(m)
+}
+
 func getPeer(baseUrl *url.URL, tls *tls.ConnectionState) *peer.Peer {
 	hostPort := baseUrl.Host
 	if !strings.Contains(hostPort, ":") {
